@@ -205,6 +205,8 @@ func c27headerConcurrency(t *testing.T, r *vk.Run, srv *BfeServer) {
 				return
 			}
 			r.Transitions(int64(out.Steps))
+			r.States(1) // one completed schedule of the real code
+			r.Traces(1)
 			distinct[fmt.Sprint(out.Switches)] = true
 			switch {
 			case out.Panic != "":
